@@ -334,8 +334,17 @@ def stratum_buffers(repo, chk):
         elif isinstance(it, ast.Call) and (m.dotted(it.func) or '') in ('range', 'numba.prange') and len(it.args) == 1 and isinstance(lp.target, ast.Name):
             trip = lenform(term_of(fn, it.args[0], inline=True))
             read = [x for x in ast.walk(lp) if isinstance(x, ast.Subscript) and isinstance(x.ctx, ast.Load) and isinstance(x.slice, ast.Name) and x.slice.id == k and isinstance(x.value, ast.Name) and x.value.id != B]
-            if read:
-                rows = term_of(fn, read[0].value, inline=True)
+            # a sibling buffer filled in the same loop is not the row list: its length is what it was allocated with
+            def is_buffer(name):
+                return any(isinstance(a, ast.Assign) and isinstance(a.targets[0], ast.Name) and a.targets[0].id == name and isinstance(a.value, ast.Call) and (m.dotted(a.value.func) or '') in ('numpy.zeros', 'numpy.empty', 'numpy.ones', 'numpy.full') for a in own_nodes(fn.node))
+            plain = [x for x in read if not is_buffer(x.value.id)]
+            if plain:
+                rows = term_of(fn, plain[0].value, inline=True)
+            elif read:
+                sib = [a for a in own_nodes(fn.node) if isinstance(a, ast.Assign) and isinstance(a.targets[0], ast.Name) and a.targets[0].id == read[0].value.id and isinstance(a.value, ast.Call) and a.value.args]
+                sz = lenform(term_of(fn, sib[0].value.args[0], inline=True)) if len(sib) == 1 else None
+                if sz is not None and sz[0] == 'call' and sz[1] == ('name', 'len') and len(sz[2]) == 1:
+                    rows = sz[2][0]
         else:
             continue
         if rows is None:
